@@ -1,7 +1,7 @@
 ---- MODULE MC_HllUnionDesign ----
 \* input catalogue and item alphabet of the bounded HllUnionDesign runs (config files cannot hold tuples / records)
 EXTENDS HllUnionDesign
-Sk(lgK, mode, S) == [lgK |-> lgK, mode |-> mode, fed |-> IF mode = HLL THEN {} ELSE S, top |-> U!CouponTop(S, lgK), empty |-> S = {}]
+Sk(lgK, mode, S) == [lgK |-> lgK, mode |-> mode, fed |-> IF mode = HLL THEN {} ELSE S, top |-> U!CouponTop(S, lgK), empty |-> S = {}, big |-> FALSE]
 A == {<<1, 2>>, <<6, 1>>}      \* two coupons; at 2 slots they share slot 0/1..., at 8 slots they are slots 1 and 6
 B == {<<3, 3>>, <<5, 1>>}
 \* empty list, empty full-size (HLL-mode) sketch of smaller lg_k, coupon-mode sketches of lg_k 1..3, HLL-mode sketches of lg_k 1..3
